@@ -75,6 +75,8 @@ type TypeDump struct {
 	Mode string `json:"mode"` // mode recorded for the definition
 	Body string `json:"body"` // StringWithModality of the body
 	Tree *TyNode `json:"tree,omitempty"`
+	UnfoldSteps int64  `json:"unfold_steps,omitempty"` // Unfold calls needed to unfold a reference to the name
+	UnfoldKind  string `json:"unfold_kind,omitempty"`  // constructor reached
 }
 
 // TyNode is a structural dump of a types.SessionType value.
